@@ -354,6 +354,11 @@ func (hs *clientHandshakeStateTLS13) processHelloRetryRequest() error {
 		hello.keyShares = []keyShare{{group: curveID, data: key.PublicKey().Bytes()}}
 	}
 
+	if len(hello.pskIdentities) > 0 && hs.session == nil {
+		// [uTLS] The pre_shared_key extension is not backed by a session (a
+		// FakePreSharedKeyExtension): there is nothing to recompute the binder from.
+		return errors.New("uTLS does not support reprocessing of PSK key triggered by HelloRetryRequest")
+	}
 	if len(hello.pskIdentities) > 0 {
 		pskSuite := cipherSuiteTLS13ByID(hs.session.cipherSuite)
 		if pskSuite == nil {
